@@ -24,4 +24,9 @@ CHECKS = {
         "note": "Trusted: TLC, exact dyadic quantile palette, value palette limited by TLC's 32-bit integers (values beyond +-1e7 are not generated, so int64-overflow style defects in min/max initialisation are out of reach), reservoir overflow (>8096 samples) not exercised. Per-group not-exists counters of time-binned field+group aggregations are not compared.",
         "technique": "TLA+ reference operators + merge-law invariant checked by TLC (exhaustive small scope + -simulate), cases replayed into real fractions and the proxy merge path",
     },
+    "C04": {
+        "text": "FetchCases.tla gives the positional reference answer for every request of a bounded scope (stored and absent IDs at every relative position, two fractions, right hints); FetchStream.tla models the adaptive chunk loop of docsStream as a state machine and TLC checks ChunkPositive, Progress, EveryIDAnsweredOnce and (under weak fairness) Terminates for every run-structured request of the scope. All cases are replayed through GrpcV1.Fetch of a real store with a watchdog and crash attribution.",
+        "note": "Trusted: TLC; MaxFetchSizeBytes lowered to 4096 so that size classes up to 5000 bytes stand for over-limit documents; requests up to ~3000 IDs (not 100k); hints are always the right fraction. The pinned tree violated the property in two ways (both repaired by fix: commits, see known_findings.json).",
+        "technique": "TLA+ reference + state-machine model of the chunk loop (invariants and liveness) checked by TLC, cases replayed through the real Fetch handler",
+    },
 }
